@@ -806,7 +806,10 @@ def variants(name, jf, fam, args, kw, is_red):
     if is_red:
         out += [("axis=0", "nd1", args + [L(0)], kw), ("axis kw", "nd1", args, {**kw, "axis": L(0)}),
                 ("axis=None", "any", args, {**kw, "axis": L(None)}), ("keepdims", "any", args, {**kw, "keepdims": L(True)}),
-                ("a kw + axis", "nd1", [], {ps[0].name: "B", "axis": L(-1)})]
+                ("a kw + axis", "nd1", [], {ps[0].name: "B", "axis": L(-1)}),
+                ("axis=-1", "nd1", args + ([L(None)] if name == "linalg.norm" else []) + [L(-1)], kw),
+                ("axis kw + keepdims", "nd1", args, {**kw, "axis": L(-1), "keepdims": L(True)}),
+                ("keepdims=False", "any", args, {**kw, "keepdims": L(False)})]
     return out
 
 
@@ -867,7 +870,8 @@ def name_targets():
     import scico.scipy.special as ss
     out = []
     seen = set()
-    for n in snp.mathematical_functions:
+    # the reduction names are read from their own list: a name only listed there must still be covered
+    for n in list(snp.mathematical_functions) + list(snp.reduction_functions):
         if n in seen:
             continue
         seen.add(n)
@@ -1152,7 +1156,7 @@ def transform_case(rng, tname):
     import scico.numpy as snp
     from scico.numpy import BlockArray
     fam = "mat" if tname == "vmap" else "any"
-    xs = [jnp.asarray(b) for b in gen_blocks(rng, fam, dtype="float64")]
+    xs = [jnp.asarray(b) for b in gen_blocks(rng, fam, n=(rng.randint(2, 3) if tname == "setitem_dtype" else None), dtype="float64")]
     if tname == "vmap":
         xs = [jnp.asarray(np.asarray(b)[:2, :2]) for b in xs]
     X = BlockArray(xs)
@@ -1661,6 +1665,18 @@ def run(ctx: Ctx):
     # (C) wrapped names
     specs = _specs()
     targets = name_targets()
+    # add_full_reduction hands the block array to the function it wraps whenever an axis is given: every name of
+    # reduction_functions must therefore be wrapped as wrapped(mapped(jax function))
+    for n in snp.reduction_functions:
+        ch = innermost(get_fn(snp, n))
+        ok = (len(ch) >= 2 and ch[0].__code__.co_name == "wrapped" and ch[-1].__code__.co_name == "mapped"
+              and ch[-1].__code__.co_filename.endswith("_wrappers.py"))
+        ctx.obligation(True, f"wrapper table: {n}")
+        ctx.count("wrapper-table", {"name": n}, nontrivial=False)
+        if not ok:
+            ctx.violation("wrapper-table", "a name of reduction_functions is not lifted block-wise underneath add_full_reduction "
+                          "(it must also be wrapped by map_func_over_blocks)", {"name": n, "chain": [c_.__code__.co_name for c_ in ch]},
+                          expected="add_full_reduction(map_func_over_blocks(jax function))")
     nskip = 0
     for mod, name, sf, jf, kind in targets:
         fam, args, kw = base_recipe(name, jf, specs)
@@ -1818,6 +1834,10 @@ def replay(ctx: Ctx, rec):
         what = random_case(_random.Random(inp["case_seed"]), inp["name"], inp["variant"]).get("what")
     elif unit == "BlockArray.attribute":
         what = attr_case(_random.Random(inp["case_seed"]), inp["kind"], inp["name"])["what"]
+    elif unit == "wrapper-table":
+        import scico.numpy as snp
+        ch = innermost(get_fn(snp, inp["name"]))
+        return len(ch) >= 2 and ch[0].__code__.co_name == "wrapped" and ch[-1].__code__.co_name == "mapped"
     elif unit == "void-wrapper":
         what, coq = run_void_case(inp)
     elif unit == "BlockArray.__init__":
